@@ -190,6 +190,13 @@ func saveFile(f *jen.File, path, want string) string {
 		if hung.Load() {
 			return "HUNG: an earlier File.Render in this process never returned"
 		}
+		if k > 0 && strings.HasPrefix(out, "OK:") {
+			// what is at the path now is what an earlier run left there: close to what is about to be
+			// saved, but not it (longer, other letter case, other comments, cut short, ...)
+			if old, ok := recipe.Stale([]byte(out[3:]), (k+len(out))%recipe.StaleVariants); ok {
+				_ = os.WriteFile(path, old, 0o644)
+			}
+		}
 		done := make(chan string, 1)
 		go func() {
 			res := ""
